@@ -29,6 +29,20 @@ impl hyper::body::Body for Unsized {
     }
 }
 
+/// A body made of given frames.
+struct Framed(std::collections::VecDeque<Bytes>);
+
+impl hyper::body::Body for Framed {
+    type Data = Bytes;
+    type Error = std::convert::Infallible;
+    fn poll_frame(
+        mut self: std::pin::Pin<&mut Self>,
+        _cx: &mut std::task::Context<'_>,
+    ) -> std::task::Poll<Option<Result<hyper::body::Frame<Bytes>, Self::Error>>> {
+        std::task::Poll::Ready(self.0.pop_front().map(|b| Ok(hyper::body::Frame::data(b))))
+    }
+}
+
 /// `h2_err` of a stream the client itself cancelled.
 pub const CANCELLED: &str = "cancelled by client";
 
@@ -115,7 +129,25 @@ pub async fn run_conn_h2(
                 b = b.header(n.as_str(), v.0.as_slice());
             }
             let full = Full::new(Bytes::from(hr.body.0.clone()));
-            let body: ReqBody = if hr.no_length { Unsized(full).boxed() } else { full.boxed() };
+            let body: ReqBody = if !hr.frames.is_empty() {
+                // explicit DATA frames, empty ones included (no length
+                // announced either)
+                let mut parts = std::collections::VecDeque::new();
+                let mut off = 0usize;
+                for n in &hr.frames {
+                    let n = (*n).min(hr.body.0.len() - off);
+                    parts.push_back(Bytes::copy_from_slice(&hr.body.0[off..off + n]));
+                    off += n;
+                }
+                if off < hr.body.0.len() {
+                    parts.push_back(Bytes::copy_from_slice(&hr.body.0[off..]));
+                }
+                Framed(parts).boxed()
+            } else if hr.no_length {
+                Unsized(full).boxed()
+            } else {
+                full.boxed()
+            };
             let req = match b.body(body) {
                 Ok(r) => r,
                 Err(e) => return (hr.req, Err(format!("build: {e}"))),
